@@ -364,12 +364,15 @@ package pbft
 //@   ensures  calls(addVote) == 1
 
 //@ func (*ConsensusState).handleMsg
-//@   props C08
+//@   props C08 C17
 //@   requires wfCS(cs)
 //@   requires [decoded-message-fields-present] (typeIs(mi.Msg, *ProposalMessage) ==> unbox(mi.Msg, *ProposalMessage) != nil && unbox(mi.Msg, *ProposalMessage).Proposal != nil) \
 //@            && (typeIs(mi.Msg, *BlockPartMessage) ==> unbox(mi.Msg, *BlockPartMessage) != nil && unbox(mi.Msg, *BlockPartMessage).Part != nil) \
 //@            && (typeIs(mi.Msg, *VoteMessage) ==> unbox(mi.Msg, *VoteMessage) != nil && unbox(mi.Msg, *VoteMessage).Vote != nil)
 //@   aborts when [where-state-functions-abort] calls(tryAddVote) >= 1 || calls(addProposalBlockPart) >= 1 || calls(setProposal) >= 1
+// (C17: a block part that came from a peer is always checked against the Merkle root of the proposal's part-set header;
+// only the node's own parts skip the check)
+//@   atcall addProposalBlockPart assert [parts-from-peers-are-proof-checked] arg_verify == (len(mi.PeerKey) != 0) && arg_height == unbox(mi.Msg, *BlockPartMessage).Height && arg_part == unbox(mi.Msg, *BlockPartMessage).Part
 
 // ---------------------------------------------------------------------------------------------
 // per-peer gossip state (C08): every bit array kept for a peer is nil or internally consistent
